@@ -18,7 +18,7 @@ pub fn run_c08(args: &Args) -> i32 {
   rep.assume("arrivals are injected in order without loss (ordering under loss is C01's subject)");
   rep.assume("view state judged only on the most recent sample of each instance in a result and only when that sample belongs to the instance's latest generation (where all readings of the spec coincide); ranks are not judged");
   rep.assume("expected state follows arrival order (DDS: receive order), also when two writers update the same instance between two reader calls");
-  let ncases = args.scale(40_000, 1_500_000);
+  let ncases = args.scale(40_000, 8_000_000);
   let seed = args.seed;
   let max_steps = if args.thorough() { 60 } else { 36 };
   let replay_case: Option<u64> = crate::replay_index(args);
@@ -60,7 +60,7 @@ pub fn run_c09(args: &Args) -> i32 {
   );
   rep.assume(&format!("a call that burns more than {} s of thread CPU time is judged as not returning (honest calls take microseconds)", shard::CPU_BUDGET_S));
   rep.assume("a bad change may be reported (Err) or skipped; both count as handled once");
-  let ncases = args.scale(60_000, 2_000_000);
+  let ncases = args.scale(60_000, 16_000_000);
   let seed = args.seed;
   let replay_case: Option<u64> = crate::replay_index(args);
   let acc = shard::run_sharded(args, ncases, args.threads(), "C09", move |i, acc, br| {
